@@ -20,7 +20,8 @@ from props.common import scale, depth_of, schema_tags, load_corpus
 from props.c08 import to_tree, refs_need_null_ns
 
 THEOREMS = ["c12_marked_returned_unchanged", "c12_name_is_definition_read", "c12_name_is_definition_write",
-            "c12_name_is_definition_validate", "c12_name_is_definition_skip", "c12_later_definitions_harmless"]
+            "c12_name_is_definition_validate", "c12_name_is_definition_skip", "c12_later_definitions_harmless",
+            "c12_piece_is_entry", "c12_piece_then_name"]
 TARGETS = ["Properties.TablesSchema", "Properties.C12"]
 
 
